@@ -30,7 +30,7 @@ theorem item_step_shape {d m : Xml} {k : Kind} (h : DomOrder ⟨d, m, k⟩ = tru
       rcOf (addK k d m).ro = some (rc.withKids (rc.kids.set j (s.withKids items'))) ∧
       keysOf "item" items' = specIds k "item" (namedOf k base) (keysOf "item" s.kids) ∧
       keyOf "story" (s.withKids items') = keyOf "story" s := by
-  obtain ⟨rc, base, ids, hrc, hc, htim, hsh, hb, hci, hnd, hres⟩ := DomOrder_unpack h
+  obtain ⟨rc, base, ids, hrc, hc, hsh, hb, hci, hnd, hres⟩ := DomOrder_unpack h
   have hns : k.isStoryLevel = false := by cases k <;> first | rfl | exact absurd hs (by decide)
   have hed : k.editsRc = true := by cases k <;> first | rfl | exact absurd hs (by decide)
   unfold containerIds at hci
